@@ -367,9 +367,9 @@ func (g *Gen) c06ConcProgs(shape, G, L, n int) [][][]string {
 				switch shape {
 				case 4:
 					if l%3 != 0 {
-						t[f] = fmt.Sprintf("%c.all.%d", 'a'+f, l)
+						t[f] = fmt.Sprintf("%cz%d", 'a'+f, l)
 					} else {
-						t[f] = fmt.Sprintf("%c.own%d.%d", 'a'+f, gi, l)
+						t[f] = fmt.Sprintf("%c%dx%d", 'a'+f, gi, l)
 					}
 				case 2:
 					// field f of goroutine gi: index (gi + f*l) mod G - all goroutines draw from the same G values per field
@@ -407,7 +407,7 @@ func c06ConcGen(g *Gen) {
 		L := r.Range(1, 3)
 		shape := i % 5
 		if shape == 4 {
-			L = r.PickInt([]int{12, 30, 60})
+			L = r.PickInt([]int{12, 30, 45})
 		}
 		tmpls := c06Templates(n)
 		tmpl := tmpls[r.Intn(len(tmpls))]
@@ -439,8 +439,8 @@ func c06ConcGen(g *Gen) {
 	// (cheap cases: the number of simultaneous first sights is what counts)
 	for i := 0; i < g.Pick(12, 120); i++ {
 		n := r.Range(1, 2)
-		G := r.PickInt([]int{3, 4, 6, 8})
-		progs := g.c06ConcProgs(4, G, r.PickInt([]int{30, 60, 90}), n)
+		G := r.PickInt([]int{3, 4, 6})
+		progs := g.c06ConcProgs(4, G, r.PickInt([]int{24, 45}), n) // (case lines stay below 60 kB: longer ones cannot enter the kernel sample)
 		g.c06Conc("creation", c06Templates(n)[r.Intn(2)], c06DefaultNames[:n], progs, r.Range(2, 4), 1, r.Intn(2)*2, r.PickInt([]int{1, 3}))
 	}
 	// boundary members: nothing to do, one goroutine, an empty program among busy ones
